@@ -488,10 +488,14 @@ class _resolve_called_lambdas(ast.NodeTransformer):
 
     def visit_Lambda(self, node: ast.Lambda) -> Any:
         "The parameters of a lambda that stays in the tree hide arguments of the same name"
-        self._arg_map_list.append({a: None for a in _lambda_parameters(node)})
-        v = self.generic_visit(node)
+        # Default values are evaluated in the enclosing scope: the parameters do not hide them.
+        a = node.args
+        a.defaults = [self.visit(d) for d in a.defaults]
+        a.kw_defaults = [d if d is None else self.visit(d) for d in a.kw_defaults]
+        self._arg_map_list.append({p: None for p in _lambda_parameters(node)})
+        node.body = self.visit(node.body)
         self._arg_map_list.pop()
-        return v
+        return node
 
     def visit_ListComp(self, node: Any) -> Any:
         "So do the targets of a comprehension (its first iterable is in the enclosing scope)"
